@@ -46,7 +46,7 @@ SCENARIOS = [
     # built-ins that keep runtime-wide bookkeeping while they call back into script (join's cycle detection)
     "function f(){ var a = [1, {toString(){ probe(); return 'b' }}, 3]; a.join('-'); probe(); String([a, 4]); var sep = {toString(){ probe(); return '+' }}; [1, 2].join(sep); a.toString(); a.toLocaleString(); probe(); }",
     # a generator closed (break / return()) while it is suspended inside a for-of over another generator whose finally block runs script
-    "function f(){ function* inner(){ try { yield 1; yield 2 } finally { probe(); log(1) } } function* outer(){ for (var x of inner()) { probe(); yield x } } for (var y of outer()) { probe(); break } probe(); var it = outer(); it.next(); probe(); it.return(5); probe(); var [d] = outer(); probe(); }",
+    "function f(){ function* inner(){ try { yield 1; yield 2 } finally { probe(); log(1) } } function* outer(){ try { for (var x of inner()) { probe(); yield x } } finally { probe(); log(2) } } for (var y of outer()) { probe(); break } probe(); var it = outer(); it.next(); probe(); it.return(5); probe(); var [d] = outer(); probe(); }",
 ]
 
 
